@@ -25,7 +25,7 @@ ASSUMPTIONS = [
     'named as a dependency depends on "everything", which the statement does not cover)',
     'invocation order between different methods is not asserted',
 ]
-REQUIRED = {'ops': 3000, 'invocations': 3000, 'overrides': 200, 'method_on_method': 200, 'function_form_ops': 300, 'methods_without_dependencies': 60, 'plain_mixin_first': 30, 'objects_mutations': 200}
+REQUIRED = {'inherited_methods_decorated_again': 30, 'ops': 3000, 'invocations': 3000, 'overrides': 200, 'method_on_method': 200, 'function_form_ops': 300, 'methods_without_dependencies': 60, 'plain_mixin_first': 30, 'objects_mutations': 200}
 
 _st = {}
 PNAMES = ['p0', 'p1', 'p2', 'p3']
@@ -128,8 +128,9 @@ def run_case(idx, rng, P, rep):
                 has_override = True
                 c = rng.random()
                 if c < 0.4 and om is not None:
-                    # decorated with different deps
-                    methods[oname] = dict(specs=[rng.choice(avail_params)], watch=rng.choice([True, True, False]), on_init=False, side=None)
+                    # decorated with different deps - a new function, or the inherited one decorated once more
+                    methods[oname] = dict(specs=[rng.choice(avail_params)], watch=rng.choice([True, True, False]), on_init=False, side=None,
+                                          redecorate=om.get('watch') is not False and not om.get('side') and rng.random() < 0.4)
                 elif c < 0.7 and om is not None:
                     methods[oname] = dict(om)            # decorated identically
                 elif oname not in named_by_others:
@@ -137,6 +138,11 @@ def run_case(idx, rng, P, rep):
                 else:
                     methods[oname] = dict(specs=[rng.choice(avail_params)], watch=True, on_init=False, side=None)
         for mname, m in methods.items():
+            if m and m.get('redecorate'):
+                # m = param.depends('other', watch=True)(Base.m): the inherited method object, given new dependencies
+                ns[mname] = param.depends(*m['specs'], watch=m['watch'], on_init=False)(getattr(tmp, mname))
+                rep.count('inherited_methods_decorated_again')
+                continue
             ns[mname] = make_method(param, mname, m['specs'] if m else None, m['watch'] if m else False, m['on_init'] if m else False,
                                     m.get('side') if m else None)
         cls = type(f'D{idx}_{ci}', bases, ns)
